@@ -102,6 +102,7 @@ type world struct {
 	l2deps  map[int]*dep
 	nextL2  int
 	l2last  uint64
+	l2blocks []l2blk // per L2 block: how many deposits / pool claims it used (for reorgs)
 
 	l1store *l1infotreesync.L1InfoTreeSync
 	l2store *bridgesync.BridgeSync
@@ -210,6 +211,23 @@ func (w *world) l2depsOrInit() map[int]*dep {
 	return w.l2deps
 }
 
+type l2blk struct{ leaves, claims int }
+
+// reorgL2 drops the L2 blocks >= from in the real bridge store and in the reference history.
+func (w *world) reorgL2(ctx context.Context, from uint64) error {
+	if err := w.l2store.VerifReorg(ctx, from); err != nil {
+		return fmt.Errorf("L2 bridge store reorg: %w", err)
+	}
+	for uint64(len(w.l2blocks)) >= from && len(w.l2blocks) > 0 {
+		b := w.l2blocks[len(w.l2blocks)-1]
+		w.l2blocks = w.l2blocks[:len(w.l2blocks)-1]
+		w.l2exit.Truncate(w.l2exit.Len() - b.leaves)
+		w.nextPool -= b.claims
+	}
+	w.l2last = from - 1
+	return nil
+}
+
 // addL2Block feeds one L2 block with nb deposits (to mainnet) and nc claims (next of the pool) to the real bridge store.
 func (w *world) addL2Block(ctx context.Context, nb, nc int) (leaves []int, claims []int, err error) {
 	num := w.l2last + 1
@@ -246,6 +264,7 @@ func (w *world) addL2Block(ctx context.Context, nb, nc int) (leaves []int, claim
 		return nil, nil, fmt.Errorf("L2 bridge store refused block %d: %w", num, err)
 	}
 	w.l2last = num
+	w.l2blocks = append(w.l2blocks, l2blk{leaves: len(leaves), claims: len(claims)})
 	if leaves == nil {
 		leaves = []int{}
 	}
